@@ -15,6 +15,7 @@ def run(ctx):
     n = 6 if thorough else 1
     cases = poolrun.make_cases(ctx, 40 * n, 40 * n, 20 * n, 45 * n, cfgs)
     # the small free list driven directly, in lock-step with SmallList (chunk order, free chains, both cursors, every address)
+    build.warm(cfgs, [('invalid', ['h_invalid.cpp'], dict(extra=['-I', os.path.join(build.REPO, 'src')]))])
     ex_list = {c: build.build_harness('invalid', c, ['h_invalid.cpp'], extra=['-I', os.path.join(build.REPO, 'src')]) for c in cfgs}
     for i in range(20 * n):
         sc = smallgen.gen_small_chunks(ctx.rng, bads=False)
